@@ -16,6 +16,10 @@ mod pid;
 mod elixir;
 mod serde_dom;
 mod conn;
+mod node;
+pub fn conn_flags() -> u64 {
+    0xdf7fbd | (1 << 32) | (1 << 34) | (1 << 35)
+}
 
 #[global_allocator]
 static GLOBAL: alloc::Counting = alloc::Counting;
@@ -37,6 +41,7 @@ fn main() {
         "elixir" => elixir::run_case,
         "serde" => serde_dom::run_case,
         "conn" => conn::run_case,
+        "node" => node::run_case,
         _ => {
             eprintln!("unknown domain {domain}");
             std::process::exit(2);
